@@ -50,6 +50,14 @@ try:
 except Exception:  # noqa: BLE001
     pass
 
+# `kill -USR1 <pid>` dumps the Python stacks of a (possibly hanging) check process to stderr
+try:
+    import faulthandler
+    import signal as _signal
+    faulthandler.register(_signal.SIGUSR1, all_threads=True)
+except Exception:  # noqa: BLE001
+    pass
+
 RUN = "0"
 DT = sl.DT_END
 # all scratch directories live on tmpfs when there is one: thousands of create / truncate / delete cycles on a
@@ -728,25 +736,98 @@ def oracle_case(case, res):
 
 
 # ----------------------------------------------------------------------------- driver of the whole check
-def _exec_safe(case):
-    try:
-        return execute(case)
-    except Exception as e:  # noqa: BLE001
-        import traceback
-        return dict(error=f"{type(e).__name__}: {e}\n{traceback.format_exc()}")
+class CaseTimeout(Exception):
+    pass
 
 
-def run_cases(cases, jobs):
-    """execute the cases on the real code, in parallel worker processes"""
-    if not cases:
+def _exec_safe(case, limit_s=300):
+    """run one case; a case that hangs (never seen on the unchanged tree, seen once under load with a mutant) is
+    interrupted by an alarm, its stacks are dumped to stderr, and it is tried once more"""
+    import signal
+    import traceback
+
+    def on_alarm(signum, frame):
+        raise CaseTimeout(f"case did not finish within {limit_s}s")
+
+    last = None
+    for _ in range(2):
+        old = signal.signal(signal.SIGALRM, on_alarm)
+        signal.alarm(limit_s)
+        try:
+            return execute(case)
+        except CaseTimeout as e:
+            try:
+                import faulthandler
+                faulthandler.dump_traceback(all_threads=True)
+            except Exception:  # noqa: BLE001
+                pass
+            last = f"{type(e).__name__}: {e}"
+        except Exception as e:  # noqa: BLE001
+            return dict(error=f"{type(e).__name__}: {e}\n{traceback.format_exc()}")
+        finally:
+            signal.alarm(0)
+            signal.signal(signal.SIGALRM, old)
+    return dict(error=last)
+
+
+def run_cases(cases, jobs, deadline_s=2400):
+    """execute the cases on the real code in `jobs` fork()ed worker processes (no multiprocessing machinery:
+    a worker that dies or hangs must not be able to block the check).  Every worker takes a slice of the cases and
+    leaves one result file per case; what is missing afterwards is executed in this process."""
+    import pickle
+    n = len(cases)
+    if n == 0:
         return []
-    import multiprocessing as mp
-    with mp.get_context("fork").Pool(min(jobs, len(cases))) as pool:
-        out = pool.map_async(_exec_safe, cases, chunksize=max(1, len(cases) // (jobs * 8))).get(timeout=2400)
-    for c, r in zip(cases, out):
-        if "error" in r:
-            raise RuntimeError(f"case {c} could not be executed: {r['error']}")
-    return out
+    jobs = max(1, min(jobs, n))
+    tmp = tempfile.mkdtemp(prefix="c04r_", dir=SHM)
+    pids = []
+    try:
+        import sys
+        sys.stdout.flush()
+        sys.stderr.flush()
+        for j in range(jobs):
+            pid = os.fork()
+            if pid == 0:
+                try:
+                    for i in range(j, n, jobs):
+                        r = _exec_safe(cases[i])
+                        with open(os.path.join(tmp, f"{i}.part"), "wb") as f:
+                            pickle.dump(r, f)
+                        os.rename(os.path.join(tmp, f"{i}.part"), os.path.join(tmp, f"{i}.pkl"))
+                finally:
+                    os._exit(0)
+            pids.append(pid)
+        t_end = time.time() + deadline_s
+        live = set(pids)
+        while live:
+            for pid in list(live):
+                wpid, _ = os.waitpid(pid, os.WNOHANG)
+                if wpid == pid:
+                    live.discard(pid)
+            if live:
+                if time.time() > t_end:
+                    for pid in live:
+                        try:
+                            os.kill(pid, 9)
+                            os.waitpid(pid, 0)
+                        except OSError:
+                            pass
+                    raise RuntimeError(f"fault runs did not finish within {deadline_s}s")
+                time.sleep(0.05)
+        out = []
+        for i, c in enumerate(cases):
+            path = os.path.join(tmp, f"{i}.pkl")
+            if os.path.exists(path):
+                with open(path, "rb") as f:
+                    r = pickle.load(f)
+            else:
+                r = _exec_safe(c)
+            if "error" in r:
+                raise RuntimeError(f"case {c} could not be executed: {r['error']}")
+            out.append(r)
+        return out
+    finally:
+        shutil.rmtree(tmp, ignore_errors=True)
 
 
 def case_id(c):
